@@ -603,16 +603,25 @@ class QueryObjectDescriptor(CanBehaveLikeAVariable[T], ABC):
                     v = conclusion._evaluate__(v)
             self._warn_on_unbound_variables_(v, selected_vars)
             if selected_vars:
-                var_val_gen = {var: var._evaluate__(copy(v))
-                               for var in selected_vars}
-                original_v = v
-                for sol in generate_combinations(var_val_gen):
-                    v = copy(original_v)
-                    var_val = {var._id_: sol[var][var._id_] for var in selected_vars}
-                    v.update(var_val)
-                    yield v
+                yield from self._bind_selected_variables_(v, list(selected_vars))
             else:
                 yield v
+
+    def _bind_selected_variables_(self, bindings: Dict[int, HashedValue],
+                                  selected_vars: List[CanBehaveLikeAVariable]) -> Iterable[Dict[int, HashedValue]]:
+        """
+        Bind the selected variables one after the other such that every selected variable is evaluated under the
+        bindings of the ones before it, unrelated variables are thus combined freely while related ones stay correlated.
+        """
+        if not selected_vars:
+            yield bindings
+            return
+        var, remaining_vars = selected_vars[0], selected_vars[1:]
+        for var_bindings in var._evaluate__(copy(bindings)):
+            new_bindings = copy(var_bindings)
+            new_bindings.update(bindings)
+            new_bindings[var._id_] = var_bindings[var._id_]
+            yield from self._bind_selected_variables_(new_bindings, remaining_vars)
 
     def _warn_on_unbound_variables_(self, sources: Dict[int, HashedValue],
                                     selected_vars: Iterable[CanBehaveLikeAVariable]):
